@@ -12,7 +12,7 @@ ID = "C12"
 RULE = (
     "Hypothesis draws a complete run card (structure functions and cross sections, all processes/"
     "schemes/heavynesses, PTO 0-3, optional TMC and scale variations) and a target: one of the seven "
-    "documented names or a generated real (Z,A) with 0<=Z<=A. The target run is compared, for every order "
+    "documented names or a generated real (Z,A) with 0<=Z<=A given as a mapping in either key order (Z first, or A first as a key-sorting YAML round trip returns it). The target run is compared, for every order "
     "key and operator entry, with the proton run rotated by the documented 2x2 matrix (Z, A-Z; A-Z, Z)/A "
     "acting on (u,d) and (ubar,dbar); the name->(Z,A) table is typed independently. Non-trivial = the "
     "proton u and d rows differ and Z != A."
@@ -23,7 +23,7 @@ ASSUMPTIONS = [
     "configurations excluded by construction (documented gaps, explicitly rejected by the code): polarised CC, polarised N3LO, TMC for gL/g4",
 ]
 BUDGET = {"quick": {"examples": 2400, "wall": 300}, "thorough": {"examples": 40000, "wall": 2400}}
-MANDATORY = {t: ["nontrivial", "target:name", "target:ZA", "xs", "tmc:on"] for t in ("quick", "thorough")}
+MANDATORY = {t: ["nontrivial", "target:name", "target:ZA", "target:ZA:ZA", "target:ZA:AZ", "xs", "tmc:on"] for t in ("quick", "thorough")}
 SHRINK = {"quick": False, "thorough": True}
 abbreviate = configs.abbreviate
 
@@ -69,7 +69,7 @@ def check_case(case):
         v.label("target:name", f"target:{tgt}")
     else:
         z, a = tgt["Z"], tgt["A"]
-        v.label("target:ZA")
+        v.label("target:ZA", "target:ZA:" + "".join(tgt))
     if meta["kind"] in configs.XS_KINDS:
         v.label("xs")
     v.label("tmc:on" if th["TMC"] else "tmc:off", f"pto:{meta['pto']}", f"scheme:{meta['scheme']}")
